@@ -663,10 +663,17 @@ class EasyID3Ref(BaseRef):
         g, p = self.rva[arg]
         return sl(["%+f dB" % g]) if cls == "gain" else sl(["%f" % p])
 
+    def _multispec_reject(self, d):
+        """MultiSpec.validate of a non-list: raise ValueError('Invalid MultiSpec data: %r' % value) -- for a tuple the
+        '%' takes the tuple as the argument list, so only a 1-tuple formats (ValueError); any other length is a TypeError"""
+        if d[0] == "t" and len(d[1]) != 1:
+            raise RefExc("TypeError")
+        raise RefExc("ValueError")
+
     def _multispec_text(self, d):
-        """MultiSpec('text', EncodedTextSpec): a list -> [str(v)...]; anything else (str was wrapped) ValueError"""
+        """MultiSpec('text', EncodedTextSpec): a list -> [str(v)...]; anything else (str was wrapped) is rejected"""
         if d[0] != "l":
-            raise RefExc("ValueError")
+            self._multispec_reject(d)
         return [pystr(x) for x in d[1]]
 
     def p_set(self, key, d):
@@ -685,7 +692,7 @@ class EasyID3Ref(BaseRef):
                     if any(c > "\x7f" for c in x[1]):
                         break
             if d[0] != "l":
-                raise RefExc("ValueError")           # MultiSpec wants a list
+                self._multispec_reject(d)            # MultiSpec wants a list
             self.text[lk] = [pystr(x) for x in d[1]]
         elif cls == "genre":
             if lk in self.text:
@@ -695,7 +702,7 @@ class EasyID3Ref(BaseRef):
             self.text[lk] = self._multispec_text(d)
         elif cls == "date":
             if d[0] != "l":
-                raise RefExc("ValueError")
+                self._multispec_reject(d)
             for x in d[1]:
                 if x[0] != "s":
                     raise RefExc("ValueError")       # TimeStampSpec: TypeError -> ValueError
@@ -915,14 +922,15 @@ class EasyMP4Ref(PlainRef):
         if d[0] == "s":
             d = ["l", [d]]
         cls = EASYMP4_KEYCLASS[k.lower()][0]
-        if d[0] != "l":
+        if d[0] not in ("l", "t"):
             raise RefExc("TypeError")                # not iterable (int, None, bool, float)
         items = d[1]
         if cls in ("text", "free"):
             for x in items:
                 if x[0] != "s":
                     raise RefExc("TypeError")
-            return ["l", [["s", x[1]] for x in items]]
+            # a text atom keeps the sequence it was given (a tuple stays a tuple), a freeform key builds a new list
+            return [d[0] if cls == "text" else "l", [["s", x[1]] for x in items]]
         if cls == "int":
             return sl([str(_clamp(_pyint(x))) for x in items])
         out = []
